@@ -6,6 +6,7 @@ import math
 from fractions import Fraction as F
 
 from ..parloop import classify_writes, is_parallel, is_numba, prange_loops, FIXTURE
+from ..models import explore, Undecided
 from ..peval import Evaluator, Model, Unsupported, RaisedInModel
 from ..source import FuncInfo, norm, SourceTree
 from .common import params
@@ -237,6 +238,11 @@ class KernelEval(Evaluator):
             return ("dtype", d)
         if d in ("numpy.isfinite",):
             return lambda v: True
+        if d in ("numpy.isnan", "math.isnan"):
+            # the coordinates of the sample points are finite numbers; a layer VALUE may be NaN or not (not known): explored both ways
+            return lambda v: False if isinstance(v, (int, float, F)) else Undecided("isnan(a layer value of the point)", per_occurrence=False)
+        if d in ("numpy.any", "numpy.all"):
+            return lambda v, *a, **k: v if isinstance(v, (bool, Undecided)) else (_ for _ in ()).throw(Unsupported("%s(%r) in the kernel" % (d, v)))
         raise Unsupported("%s in the kernel" % d)
 
     def ev_Attribute(self, node):
@@ -328,13 +334,18 @@ def r2_kernel_index_logic(run, tree):
             variants = [(n_, big) for n_ in (1, 2, 4, 5) for big in (False, True)]
     except Exception:
         pass
-    for nthreads, big in variants:
-        tag = ("" if nthreads == 1 else "[threads=%d]" % nthreads) + ("" if big is None else "[%s the size threshold]" % ("above" if big else "below"))
-        try:
-            log, arrays, ret = fold_kernel(tree, fi, pts, xmin, xmax, nx, ymin, ymax, ny, nthreads, assume_large=big)
-        except (Unsupported, RaisedInModel, ZeroDivisionError, TypeError, IndexError) as e:
-            run.unresolved("%s::fold%s" % (KERNEL, tag), fi.where(), "cannot fold the kernel over the sample points: %s: %s" % (type(e).__name__, e))
-            continue
+    def folds():
+        # a test on a layer value inside the kernel (np.isnan(values[:, i])) is explored both ways: the point must be binned in both
+        for nthreads, big in variants:
+            tag = ("" if nthreads == 1 else "[threads=%d]" % nthreads) + ("" if big is None else "[%s the size threshold]" % ("above" if big else "below"))
+            try:
+                branches = explore(lambda: fold_kernel(tree, fi, pts, xmin, xmax, nx, ymin, ymax, ny, nthreads, assume_large=big), limit=4)
+            except (Unsupported, RaisedInModel, ZeroDivisionError, TypeError, IndexError) as e:
+                run.unresolved("%s::fold%s" % (KERNEL, tag), fi.where(), "cannot fold the kernel over the sample points: %s: %s" % (type(e).__name__, e))
+                continue
+            for assume, res in branches:
+                yield nthreads, big, tag + ("" if not assume else "[assuming %s]" % ", ".join("%s%s" % ("" if v else "not ", k) for k, v in sorted(assume.items()))), res
+    for nthreads, big, tag, (log, arrays, ret) in folds():
         # the returned arrays: (values, counts), possibly reduced over a leading per-thread axis
         if not (isinstance(ret, tuple) and len(ret) == 2 and all(isinstance(r, Arr) for r in ret)):
             run.unresolved("%s::return%s" % (KERNEL, tag), fi.where(), "kernel does not return (values, counts) accumulators")
